@@ -55,3 +55,36 @@ Lemma C05_pinned_hand_over_lost :
 Proof.
   exists [0; 2; 7; 0; 0; 9; 0; 10; 1; 30; 4; 0; 0; 10; 0]. vm_compute. split; reflexivity.
 Qed.
+
+(* Seeded change `next_wakeup_stuck`: activate clears next_wakeup only when the bump popped a
+   slot, instead of whenever the marker is due (the code as it is: Driver.activate). *)
+Definition activate_mut (now : N) (dr : driver) : list slot * driver :=
+  let '(w, rest) := q_bump now (pending dr) in
+  (w, {| pending := rest;
+         next_wakeup := match w with [] => next_wakeup dr | _ => None end;
+         scheduled := scheduled dr |}).
+
+Definition event_body_mut (t : N) (ops : list dop) (dr : driver) : list slot * driver :=
+  let '(w, d1) := activate_mut t dr in (w, fst (deactivate true (apply_ops ops d1))).
+
+(* register a@10 at 0 (wake-up 10 scheduled); a MESSAGE event at 2 drops a and registers b@20
+   (20 is not earlier than the marker 10: nothing scheduled, correctly); the stale wake-up 10
+   fires with nothing to bump.  The real activate clears the marker and deactivate schedules 20;
+   the mutant keeps the marker 10 forever: b is live, no wake-up is scheduled, Inv_wake fails. *)
+Lemma C05_mutant_activate_refuted :
+  let ev0 body dr := snd (body 0 [Register 1 10] dr) in
+  let ev2 body dr := snd (body 2 [DropEntry 1 10; Register 2 20] dr) in
+  let ev10 body dr := snd (body 10 [] (sched_fire 10 dr)) in
+  let good := ev10 (event_body true) (ev2 (event_body true) (ev0 (event_body true) new_driver)) in
+  let bad := ev10 event_body_mut (ev2 event_body_mut (ev0 event_body_mut new_driver)) in
+  (scheduled good = [20] /\ next_wakeup good = Some 20) /\
+  (live bad 2 20 /\ scheduled bad = [] /\ next_wakeup bad = Some 10 /\ ~ Inv_wake 10 bad).
+Proof.
+  cbn zeta. split; [vm_compute; split; reflexivity|].
+  split; [exists [2]; split; [vm_compute; left; reflexivity|left; reflexivity]|].
+  split; [vm_compute; reflexivity|]. split; [vm_compute; reflexivity|].
+  intros H. destruct (H 20 [2]) as (w & Hw & _).
+  - vm_compute. left; reflexivity.
+  - discriminate.
+  - vm_compute in Hw. exact Hw.
+Qed.
